@@ -110,6 +110,11 @@ func (w *walker) walk(path string, v reflect.Value) {
 				} else {
 					w.leaf(path, "set")
 				}
+			case strings.HasSuffix(path, ".LastRunTime"):
+				// every reader of a continuous query's last run time receives it through
+				// Marshal (UnixNano); the zero time and its image after a round trip are the
+				// same value for them (services/continuousquery treats both as "long ago")
+				w.leaf(path, strconv.FormatInt(tm.UnixNano(), 10))
 			case tm.IsZero():
 				w.leaf(path, "zero")
 			default:
